@@ -615,7 +615,11 @@ func TestC04Enum(t *testing.T) {
 // RENAME /D1 -> /D0/z, or into directories further down): whatever the interleaving - client 0 is held at each of
 // its first lock/commit points while client 1 runs - at most one of the two can succeed (the second would move a
 // directory below itself), and the directories must still form a tree rooted at the root.
-func TestC04RenameCycle(t *testing.T) {
+func TestC04RenameCycle(t *testing.T) { renameCycle(t, "C04") }
+
+// renameCycle reports under prop; as C03 only the verdicts about the replies count (both renames answering OK is an
+// outcome no sequential order of the two requests has), the disk is C04's subject.
+func renameCycle(t *testing.T, prop string) {
 	shard, nshards := EnvInt("VERIF_SHARD", 0), EnvInt("VERIF_NSHARDS", 1)
 	St.Exhaustive(true)
 	run := 0
@@ -709,8 +713,8 @@ func TestC04RenameCycle(t *testing.T) {
 					"RENAME /D0 -> D1.../z": st0, "RENAME /D1 -> D0.../z": st1}
 				fail := func(format string, a ...any) {
 					msg := fmt.Sprintf(format, a...)
-					St.Violation("C04", msg, detail)
-					t.Fatalf("C04: %s\n%v", msg, detail)
+					St.Violation(prop, msg, detail)
+					t.Fatalf("%s: %s\n%v", prop, msg, detail)
 				}
 				if o.Slow {
 					St.Class("call_too_slow_for_the_harness_not_judged")
@@ -727,7 +731,7 @@ func TestC04RenameCycle(t *testing.T) {
 					fail("neither rename succeeded (status %d and %d) although each is possible by itself", st0, st1)
 				}
 				var ferr error
-				if g := Guard(10*time.Second, func() { w.S.Quiesce(); ferr = Fsck(w.S.N.VerifFsState(), FsckOpts{Exact: true, Allocators: true}).Err() }); g.Bad() || ferr != nil {
+				if g := Guard(10*time.Second, func() { w.S.Quiesce(); ferr = Fsck(w.S.N.VerifFsState(), FsckOpts{Exact: true, Allocators: true}).Err() }); (g.Bad() || ferr != nil) && prop == "C04" {
 					fail("after the two renames the disk is not a well-formed file system: %v %v", g, ferr)
 				}
 				w.S.Stop()
@@ -742,7 +746,7 @@ func TestC04RenameCycle(t *testing.T) {
 	// /D0/x and is held at each of its first twenty-four lock/commit/abort points; meanwhile client 1 renames /D1
 	// to /z and /D0 to /D1 (inside the root).  If client 0 then moves what is now called /D1 - the directory D0 -
 	// into D0/x, D0 ends up below itself.  Whatever happens, the directories must still form a tree.
-	for hook := -1; hook < 24; hook++ {
+	for hook := -1; hook < 24 && prop == "C04"; hook++ {
 		idx++
 		if idx%nshards != shard {
 			continue
